@@ -56,6 +56,9 @@ class ParseSim:
     # ---------------------------------------------------------------- inputs
     def gen_input(self, rng, gname):
         g = self.grammars[gname]
+        if "long" in g and rng.coin(120):
+            # medium length (beyond small-input thresholds such as 64 bytes), made of valid items
+            return self.gen_long_input(rng, gname, [70, 130, 300])
         chars = list(rng.choice(g["sentences"]))
         nmut = rng.weighted([(0, 40), (1, 30), (2, 20), (3, 10)])
         for _ in range(nmut):
@@ -113,9 +116,16 @@ class ParseSim:
 
     def related_input(self, rng, gname, prev):
         g = self.grammars[gname]
-        k = rng.below(6)
+        k = rng.below(7)
         chars = list(prev)
         if k == 0 or not chars:
+            return prev
+        if k == 6:
+            # same length, only the tail differs (the last alphanumeric character is replaced by another one)
+            for i in range(len(chars) - 1, max(len(chars) - 8, -1), -1):
+                if chars[i].isascii() and chars[i].isalnum():
+                    chars[i] = rng.choice([c for c in "abxyz1289" if c != chars[i] and c.isdigit() == chars[i].isdigit()])
+                    return "".join(chars)
             return prev
         if k == 5:
             # same length in BYTES, different text: two ASCII characters become one two-byte character or vice versa
@@ -128,12 +138,13 @@ class ParseSim:
             return prev
         if k == 1:
             return "".join(chars[: rng.below(len(chars) + 1)])
+        lim = max(40, len(prev.encode()))
         if k == 2:
             i = len(chars) // 2 + rng.below(len(chars) - len(chars) // 2)
             chars[i] = rng.choice(g["tokens"])
-            return self.clamp(g, "".join(chars))
+            return self.clamp(g, "".join(chars), limit=lim)
         if k == 3:
-            return self.clamp(g, prev + rng.choice(g["tokens"]))
+            return self.clamp(g, prev + rng.choice(g["tokens"]), limit=lim + 8)
         return self.gen_input(rng, gname)
 
     def gen_ctx(self, rng, v):
@@ -575,6 +586,8 @@ def run_check(prop, tier, seed, replay_path=None):
             stats["simulations"] += 1
             if not out.get("ok"):
                 # no result from the simulation: a violation if it reproduces (the isolated jobs all terminate)
+                if sum(1 for v in violations if v.get("sig") == "noresult") >= 2:
+                    continue  # enough of these to report; every re-run may cost a full timeout
                 again = ps.run_single(plan)
                 if not again.get("ok"):
                     violations.append({"plan": plan, "sig": "noresult", "first": (None, None, None, out)})
@@ -783,7 +796,7 @@ def run_check(prop, tier, seed, replay_path=None):
     write_evidence(prop, tier, seed, "exploration", coverage, wall, nviol, [
         "oracle = the same call as the only parse of a fresh single-threaded process (same tracer type); equality of {:?} renderings",
         "context switches happen only at ParseTracer callbacks, @extern/@check calls and job boundaries" + ("; finer preemption and data races are covered by the Miri part" if prop == "C20" else ""),
-        "corpus of 11 grammars / 71 @memoize-subset variants; inputs <= 40 bytes",
+        "corpus of %d grammars / %d @memoize-subset variants; simulated inputs <= 40 bytes (deep ones up to ~500, warm-ups up to 100 KB)" % (len(ps.grammars), len(ps.variants)),
     ])
     if nviol:
         return 1
